@@ -191,20 +191,28 @@ def coqchk(prop_id):
     return ok, summ
 
 
-def coq_eval(exprs, imports, workdir, tag="cases", shard=250, scope="string_scope", timeout=600):
+def coq_eval(exprs, imports, workdir, tag="cases", shard=250, scope="string_scope", timeout=600, max_bytes=250000):
     """Evaluate each Gallina expression (of type string) with vm_compute inside Coq.
     Returns list of result strings (None where evaluation failed)."""
     if not exprs:
         return []
-    files = []
-    for k in range(0, len(exprs), shard):
-        fn = os.path.join(workdir, f"{tag}_{k // shard}.v")
+    # shards are bounded both by case count and by source size (huge literals cost gigabytes inside Coq)
+    files, cur, cur_bytes = [], [], 0
+    groups = []
+    for e in exprs:
+        if cur and (len(cur) >= shard or cur_bytes + len(e) > max_bytes):
+            groups.append(cur); cur, cur_bytes = [], 0
+        cur.append(e); cur_bytes += len(e)
+    if cur:
+        groups.append(cur)
+    for gi, g in enumerate(groups):
+        fn = os.path.join(workdir, f"{tag}_{gi}.v")
         with open(fn, "w") as f:
             f.write(imports + "\n")
             f.write(f"Open Scope {scope}.\n")
-            for e in exprs[k:k + shard]:
+            for e in g:
                 f.write("Eval vm_compute in (" + e + ").\n")
-        files.append((fn, len(exprs[k:k + shard])))
+        files.append((fn, len(g)))
 
     def run(item):
         fn, n = item
@@ -218,7 +226,7 @@ def coq_eval(exprs, imports, workdir, tag="cases", shard=250, scope="string_scop
         return vals, ""
 
     out, errs = [], []
-    with ThreadPoolExecutor(max_workers=12) as ex:
+    with ThreadPoolExecutor(max_workers=int(os.environ.get("VERIF_COQ_JOBS", "8"))) as ex:
         for vals, err in ex.map(run, files):
             out.extend(vals)
             if err:
